@@ -104,7 +104,7 @@ struct spec {
 	uint8_t is32[12];
 	uint64_t valid[12];      /* valid value (pointer into slot or scalar) */
 	size_t objsize[12]; uint8_t is_out[12];
-	int nsv[12]; struct sval sv[12][10];
+	int nsv[12]; struct sval sv[12][96];
 };
 static struct spec S;
 static const struct ent *CUR;
@@ -113,7 +113,9 @@ static const char *cur_family = "";
 static void *obj(int i, size_t n, size_t align) { size_t off = vk_place(&so[i], n, VK_END, align, 0); S.objsize[i] = n; return so[i].rw + off; }
 static void ptr(int i, void *p, int req_if, int is_out) { S.isptr[i] = 1; S.valid[i] = (uint64_t)(uintptr_t)p; S.req_if[i] = req_if; S.is_out[i] = is_out; S.nsv[i] = 0; if (i >= S.n) S.n = i + 1; }
 static void scal(int i, uint64_t v, int is32) { S.isptr[i] = 0; S.valid[i] = v; S.is32[i] = is32; S.nsv[i] = 0; if (i >= S.n) S.n = i + 1; }
-static void alt(int i, uint64_t v, int validity) { S.sv[i][S.nsv[i]++] = (struct sval){ v, validity }; }
+static void alt(int i, uint64_t v, int validity) { for (int k = 0; k < S.nsv[i]; k++) if (S.sv[i][k].v == v) return; if (S.nsv[i] < 96) S.sv[i][S.nsv[i]++] = (struct sval){ v, validity }; }
+/* small scalar domains are enumerated, not sampled: every value of [lo,hi] with its validity from the documented domain */
+#define ALT_RANGE(i, lo, hi, expr_valid) do { for (uint64_t x_ = (lo); x_ <= (hi); x_++) alt((i), x_, (expr_valid) ? V_OK : V_BAD); } while (0)
 
 /* prepare state needed by the call under test, using valid public calls (ABI checks off, results unchecked here) */
 static void *gcm_kd(int bits) { return bits == 128 ? &kd128 : &kd256; }
@@ -167,7 +169,7 @@ static void build_spec(const struct ent *e)
 		uint8_t *in = obj(0, 64, 1), *iv = obj(1, 16, 16), *keys = obj(2, 16 * (nr + 1), 16), *out = obj(3, 64, 1);
 		memcpy(in, pool, 64); memcpy(iv, pool + 64, 16); memcpy(keys, sched, 16 * (nr + 1));
 		ptr(0, in, 4, 0); ptr(1, iv, -1, 0); ptr(2, keys, -1, 0); ptr(3, out, 4, 1); scal(4, 64, 0);
-		alt(4, 16, V_OK); alt(4, 0, V_UNSPEC); alt(4, 1, V_BAD); alt(4, 15, V_BAD); alt(4, 17, V_BAD); alt(4, 63, V_BAD);
+		alt(4, 16, V_OK); alt(4, 0, V_UNSPEC); ALT_RANGE(4, 1, 70, x_ % 16 == 0);
 		break; }
 	case C_GCM1: {
 		size_t al = e->nt ? 64 : 1;
@@ -177,7 +179,7 @@ static void build_spec(const struct ent *e)
 		ptr(0, key, -1, 0); ptr(1, ctx, -1, 1); ptr(2, out, 4, 1); ptr(3, in, 4, 0); scal(4, 128, 0); ptr(5, iv, -1, 0); ptr(6, aad, 7, 0); scal(7, 20, 0); ptr(8, tag, -1, 1); scal(9, 16, 0);
 		alt(4, 0, V_OK); alt(4, 64, V_OK); if (!e->nt) { alt(4, 1, V_OK); alt(4, 17, V_OK); } alt(4, ISAL_GCM_MAX_LEN + 1, V_BAD);
 		alt(7, 0, V_OK); alt(7, 1, V_OK);
-		alt(9, 8, V_OK); alt(9, 12, V_OK); alt(9, 0, V_BAD); alt(9, 15, V_BAD); alt(9, 17, V_BAD); alt(9, 4, V_UNSPEC);
+		/* header: "Valid values are 16 (most likely), 12 or 8" */ ALT_RANGE(9, 0, 40, x_ == 8 || x_ == 12 || x_ == 16); alt(9, (1ull << 32) + 16, V_BAD); alt(9, ~0ull, V_BAD);
 		break; }
 	case C_GCMINIT: {
 		uint8_t *key = obj(0, sizeof(struct isal_gcm_key_data), 16), *ctx = obj(1, sizeof(struct isal_gcm_context_data), 16), *iv = obj(2, 12, 1), *aad = obj(3, 20, 1);
@@ -195,7 +197,7 @@ static void build_spec(const struct ent *e)
 		uint8_t *key = obj(0, sizeof(struct isal_gcm_key_data), 16), *ctx = obj(1, sizeof(struct isal_gcm_context_data), 16), *tag = obj(2, 16, 1);
 		memcpy(key, gcm_kd(e->bits), sizeof(struct isal_gcm_key_data));
 		ptr(0, key, -1, 0); ptr(1, ctx, -1, 1); ptr(2, tag, -1, 1); scal(3, 16, 0);
-		alt(3, 8, V_OK); alt(3, 12, V_OK); alt(3, 0, V_BAD); alt(3, 15, V_BAD); alt(3, 17, V_BAD); alt(3, 4, V_UNSPEC);
+		ALT_RANGE(3, 0, 40, x_ == 8 || x_ == 12 || x_ == 16); alt(3, (1ull << 32) + 16, V_BAD); alt(3, ~0ull, V_BAD);
 		break; }
 	case C_GCMPRE: { uint8_t *key = obj(0, e->bits / 8, 1), *kd = obj(1, sizeof(struct isal_gcm_key_data), 16); memcpy(key, rawkey, e->bits / 8); ptr(0, key, -1, 0); ptr(1, kd, -1, 1); break; }
 	case C_KEYEXP: { int nr = e->bits / 32 + 6; uint8_t *key = obj(0, e->bits / 8, 1), *en = obj(1, 16 * (nr + 1), 1), *de = obj(2, 16 * (nr + 1), 1); memcpy(key, rawkey, e->bits / 8); ptr(0, key, -1, 0); ptr(1, en, -1, 1); ptr(2, de, -1, 1); break; }
@@ -207,7 +209,7 @@ static void build_spec(const struct ent *e)
 		else { memcpy(k1, rawkey, kn); memcpy(k2, rawkey + 32, kn); }
 		memcpy(tw, pool + 500, 16); memcpy(in, pool, 512);
 		ptr(0, k2, -1, 0); ptr(1, k1, -1, 0); ptr(2, tw, -1, 0); scal(3, 512, 0); ptr(4, in, -1, 0); ptr(5, out, -1, 1);
-		alt(3, 16, V_OK); alt(3, 17, V_OK); alt(3, 0, V_BAD); alt(3, 1, V_BAD); alt(3, 15, V_BAD); alt(3, (1u << 24) + 1, V_BAD); alt(3, 1ull << 40, V_BAD);
+		ALT_RANGE(3, 0, 33, x_ >= 16); alt(3, (1u << 24) + 1, V_BAD); alt(3, 1ull << 40, V_BAD); alt(3, (1ull << 32) + 16, V_BAD);
 		break; }
 	case C_SELFTEST: break;
 	case C_HINIT: { uint8_t *m = obj(0, hmgr[e->alg], 64); ptr(0, m, -1, 1); break; }
@@ -216,13 +218,13 @@ static void build_spec(const struct ent *e)
 		memcpy(b, pool, 200);
 		ptr(0, m, -1, 1); ptr(1, c, -1, 1); ptr(2, co, -1, 1); ptr(3, b, 4, 0); scal(4, 65, 1); scal(5, ISAL_HASH_ENTIRE, 1);
 		alt(4, 0, V_OK); alt(4, 1, V_OK); alt(4, 200, V_OK);
-		alt(5, ISAL_HASH_FIRST, V_OK); alt(5, ISAL_HASH_UPDATE, V_OK); alt(5, ISAL_HASH_LAST, V_OK); alt(5, 4, V_BAD); alt(5, 0x10, V_BAD); alt(5, 0xff, V_BAD);
+		alt(5, ISAL_HASH_FIRST, V_OK); alt(5, ISAL_HASH_UPDATE, V_OK); alt(5, ISAL_HASH_LAST, V_OK); alt(5, 4, V_BAD); alt(5, 0x10, V_BAD); alt(5, 0xff, V_BAD); ALT_RANGE(5, 4, 40, 0); for (int b_ = 6; b_ < 32; b_++) alt(5, (1u << b_) | (b_ & 3), V_BAD);
 		break; }
 	case C_HFLUSH: { uint8_t *m = obj(0, hmgr[e->alg], 64), *co = obj(1, 8, 8); ptr(0, m, -1, 1); ptr(1, co, -1, 1); break; }
 	case C_MHINIT: { uint8_t *c = obj(0, mhsz[e->alg], 16); ptr(0, c, -1, 1); if (e->alg == 2) { scal(1, 0x1234567, 0); alt(1, 0, V_OK); alt(1, ~0ull, V_OK); } break; }
 	case C_MHUPD: { uint8_t *c = obj(0, mhsz[e->alg], 16), *b = obj(1, 1100, 1); memcpy(b, pool, 1100); ptr(0, c, -1, 1); ptr(1, b, 2, 0); scal(2, 1100, 1); alt(2, 0, V_OK); alt(2, 1, V_OK); alt(2, 1024, V_OK); break; }
 	case C_MHFIN: { uint8_t *c = obj(0, mhsz[e->alg], 16), *d = obj(1, e->alg == 1 ? 32 : 20, 1); ptr(0, c, -1, 1); ptr(1, d, -1, 1); if (e->alg == 2) { uint8_t *d2 = obj(2, 16, 1); ptr(2, d2, -1, 1); } break; }
-	case C_RINIT: { uint8_t *s = obj(0, sizeof(struct isal_rh_state2), 8); ptr(0, s, -1, 1); scal(1, 16, 1); alt(1, 1, V_OK); alt(1, 48, V_OK); alt(1, 49, V_BAD); alt(1, 0xffffffffu, V_BAD); alt(1, 0, V_UNSPEC); break; }
+	case C_RINIT: { uint8_t *s = obj(0, sizeof(struct isal_rh_state2), 8); ptr(0, s, -1, 1); scal(1, 16, 1); alt(1, 0, V_UNSPEC); ALT_RANGE(1, 1, 80, x_ <= 48); alt(1, 0xffffffffu, V_BAD); alt(1, 0x80000000u, V_BAD); alt(1, 0x100 + 16, V_BAD); break; }
 	case C_RRESET: { uint8_t *s = obj(0, sizeof(struct isal_rh_state2), 8), *b = obj(1, 16, 1); memcpy(b, pool, 16); ptr(0, s, -1, 1); ptr(1, b, -1, 0); break; }
 	case C_RRUN: {
 		uint8_t *s = obj(0, sizeof(struct isal_rh_state2), 8), *b = obj(1, 300, 1), *o = obj(5, 4, 4), *m = obj(6, 4, 4); memcpy(b, pool, 300);
@@ -457,9 +459,10 @@ extern void asm_set_self_tests_status(int);
 /* harness shims replace _aes_self_tests / _sha_self_tests in self_tests.o (objcopy --redefine-sym) */
 static int shim_aes_ret, shim_sha_ret; static int shim_entered_aes, shim_entered_sha;
 static int latch_shim(int is_sha);
-int verif_aes_self_tests(void) { shim_entered_aes++; return latch_shim(0); }
-int verif_sha_self_tests(void) { shim_entered_sha++; return latch_shim(1); }
 extern int _aes_self_tests(void); extern int _sha_self_tests(void);
+int real_mode_self_tests;
+int verif_aes_self_tests(void) { shim_entered_aes++; if (real_mode_self_tests) return _aes_self_tests(); return latch_shim(0); }
+int verif_sha_self_tests(void) { shim_entered_sha++; if (real_mode_self_tests) return _sha_self_tests(); return latch_shim(1); }
 static int fail_aes = 1, fail_sha = 1;   /* calibrated failure return values */
 
 enum { L_NOTRUN, L_PASSED, L_FAILED };
@@ -525,6 +528,65 @@ static void calibrate(void)
 	if (s1 && w1) { void *o = *s1; *s1 = w1; int r = _aes_self_tests(); *s1 = o; if (r) fail_aes = r; vk_note("calibration: genuine _aes_self_tests returns %d on failure", r); }
 	if (s2 && w2) { void *o = *s2; *s2 = w2; int r = _sha_self_tests(); *s2 = o; if (r) fail_sha = r; vk_note("calibration: genuine _sha_self_tests returns %d on failure", r); }
 }
+/* ---- self-test sensitivity: a known-answer test that calls a primitive and gets a wrong answer from it must fail ----
+ * Every dispatch slot of an approved algorithm is, one at a time, re-pointed to a saboteur that calls the really bound
+ * function and then corrupts what it produced.  If the genuine class self-test (_aes_self_tests / _sha_self_tests) calls
+ * the saboteur at all (counted), its verdict must be "failed", and isal_self_tests must latch FAILED: "once the
+ * self-tests have failed" includes a failing known-answer test whose result is lost on the way to the verdict.  No list
+ * of what the self-tests are supposed to cover is assumed: only primitives they actually call are judged. */
+static void *sab_real; static int sab_calls;
+typedef void *(*fn5)(void *, void *, const void *, uint32_t, int);
+static void *sab_hash_submit(void *mgr, void *ctx, const void *buf, uint32_t len, int flags) { sab_calls++; return ((fn5)sab_real)(mgr, ctx, buf, len ? len - 1 : 0, flags); }
+static void sab_cbc(void *in, void *iv, void *keys, uint8_t *out, uint64_t len) { sab_calls++; ((void (*)(void *, void *, void *, void *, uint64_t))sab_real)(in, iv, keys, out, len); if (len) { out[0] ^= 1; out[len - 1] ^= 0x80; } }
+static void sab_xts(void *k2, void *k1, void *tw, uint64_t len, const void *in, uint8_t *out) { sab_calls++; ((void (*)(void *, void *, void *, uint64_t, const void *, void *))sab_real)(k2, k1, tw, len, in, out); if (len) { out[0] ^= 1; out[len - 1] ^= 0x80; } }
+static void sab_gcm(void *key, void *ctx, uint8_t *out, const void *in, uint64_t len, void *iv, const void *aad, uint64_t aadl, uint8_t *tag, uint64_t tagl)
+{ sab_calls++; ((void (*)(void *, void *, void *, const void *, uint64_t, void *, const void *, uint64_t, void *, uint64_t))sab_real)(key, ctx, out, in, len, iv, aad, aadl, tag, tagl); if (len) out[0] ^= 1; if (tagl) tag[0] ^= 1; }
+static void sab_gcm_update(void *key, void *ctx, uint8_t *out, const void *in, uint64_t len) { sab_calls++; ((void (*)(void *, void *, void *, const void *, uint64_t))sab_real)(key, ctx, out, in, len); if (len) out[0] ^= 1; }
+static void sab_gcm_finalize(void *key, void *ctx, uint8_t *tag, uint64_t tagl) { sab_calls++; ((void (*)(void *, void *, void *, uint64_t))sab_real)(key, ctx, tag, tagl); if (tagl) tag[0] ^= 1; }
+static void sab_gcm_init(void *key, struct isal_gcm_context_data *ctx, void *iv, const void *aad, uint64_t aadl) { sab_calls++; ((void (*)(void *, void *, void *, const void *, uint64_t))sab_real)(key, ctx, iv, aad, aadl); ctx->aad_hash[0] ^= 1; ctx->orig_IV[15] ^= 2; }
+static void sab_gcm_precomp(struct isal_gcm_key_data *kd) { sab_calls++; ((void (*)(void *))sab_real)(kd); kd->shifted_hkey_1[0] ^= 1; }
+static void sab_keyexp(const void *key, uint8_t *enc, uint8_t *dec) { sab_calls++; ((void (*)(const void *, void *, void *))sab_real)(key, enc, dec); enc[16] ^= 1; enc[0] ^= 1; if (dec) { dec[16] ^= 1; dec[0] ^= 1; } }
+static void sensitivity(void)
+{
+	static const struct { const char *pat; void *sab; int sha; } K[] = {
+		{ "_sha1_ctx_mgr_submit", sab_hash_submit, 1 }, { "_sha256_ctx_mgr_submit", sab_hash_submit, 1 }, { "_sha512_ctx_mgr_submit", sab_hash_submit, 1 },
+		{ "_aes_cbc_", sab_cbc, 0 }, { "_XTS_AES_", sab_xts, 0 }, { "_aes_gcm_precomp_", sab_gcm_precomp, 0 }, { "_aes_gcm_init_", sab_gcm_init, 0 },
+		{ "_finalize", sab_gcm_finalize, 0 }, { "_update", sab_gcm_update, 0 }, { "_aes_gcm_enc_", sab_gcm, 0 }, { "_aes_gcm_dec_", sab_gcm, 0 }, { "_aes_keyexp_", sab_keyexp, 0 },
+	};
+	shim_aes_ret = shim_sha_ret = 0;
+	if (_aes_self_tests() || _sha_self_tests()) return;    /* binds every slot the self-tests use; a failure here is reported by calibrate() */
+	for (unsigned i = 0; i < vk_nsyms; i++) {
+		const char *nme = vk_symtab[i].name; size_t l = strlen(nme);
+		if (l <= 11 || strcmp(nme + l - 11, "_dispatched")) continue;
+		if (!strncmp(nme, "_aes_keyexp_128_enc", 19)) continue;      /* two-argument variant */
+		void *sab = NULL; int sha = 0;
+		for (unsigned k = 0; k < sizeof K / sizeof *K && !sab; k++) {
+			if (K[k].pat[0] == '_' && K[k].pat[1] != 'f' && K[k].pat[1] != 'u') { if (!strncmp(nme, K[k].pat, strlen(K[k].pat))) { sab = K[k].sab; sha = K[k].sha; } }
+			else if (!strncmp(nme, "_aes_gcm_", 9) && strstr(nme, K[k].pat)) { sab = K[k].sab; sha = K[k].sha; }
+		}
+		if (!sab) continue;
+		void **slot = vk_symtab[i].addr; void *orig = *slot;
+		sab_real = orig; sab_calls = 0; *slot = sab;
+		int r = sha ? _sha_self_tests() : _aes_self_tests();
+		int called = sab_calls;
+		/* and through the real latch: the verdict must be stored as a failure */
+		int latched_ok = 1;
+		if (called) {
+			extern int real_mode_self_tests;     /* shims forward to the genuine functions */
+			self_test_status = 2; real_mode_self_tests = 1;
+			int rr = (int)vk_vcall_n(vk_sym("isal_self_tests"), "isal_self_tests", 0);
+			real_mode_self_tests = 0;
+			latched_ok = rr != 0 && self_test_status == 1;
+		}
+		*slot = orig; self_test_status = 2;
+		vk_stat("transitions", 1); vk_stat("sabotaged_slots", 1);
+		if (!called) { vk_stat("sabotaged_slots_not_used_by_self_tests", 1); continue; }
+		vk_stat("sabotaged_slots_used_by_self_tests", 1);
+		char slotname[96]; snprintf(slotname, sizeof slotname, "%.*s", (int)(l - 11), nme);
+		if (r == 0) { char key[160]; snprintf(key, sizeof key, "%s:known_answer_failure_lost", sha ? "_sha_self_tests" : "_aes_self_tests"); vk_violation("C13", key, NULL, "%s called %s %d times, got corrupted results every time and still reported success: a failing known-answer test does not reach the verdict (first seen for %s)", sha ? "_sha_self_tests" : "_aes_self_tests", slotname, called, slotname); }
+		else if (!latched_ok) { char key[160]; snprintf(key, sizeof key, "isal_self_tests:failure_not_latched"); vk_violation("C13", key, NULL, "with %s corrupted the class self-test fails (%d) but isal_self_tests did not return / latch the failure", slotname, r); }
+	}
+}
 static void set_latch(int latch, int via)
 {
 	/* put the library in a latch state through the real code paths */
@@ -540,6 +602,7 @@ static void set_latch(int latch, int via)
 static void fips(void)
 {
 	calibrate();
+	if (vk_shard == 0) sensitivity();
 	long item = 0;
 	/* outcomes: 0 pass, 1 AES fails, 2 SHA fails */
 	for (int latch = 0; latch < 3; latch++) for (int via = 0; via < (latch == L_FAILED ? 3 : 1); via++)
@@ -685,6 +748,7 @@ static void latch(void)
 		add_mutable(&c, slot_sha256_init, 8);
 		c.reset = latch_reset; c.check = latch_check; c.state_extra = latch_extra; c.unstick = latch_unstick;
 		c.preempt_bound = nthr == 4 ? (vk_thorough ? 3 : 2) : -1;
+		if (nthr == 4 && vk_opt("latch-bound4", &lv)) c.preempt_bound = atoi(lv);
 		c.max_points = 300; c.max_executions = vk_thorough ? 4000000 : 400000;
 		latch_outcome = oc;
 		fail_aes = 1; fail_sha = -1;
